@@ -102,12 +102,19 @@ def declared(lines):
 def read_loc(rec):
     """What a sort order reads from a record, through the accessors the library uses, each component on its own;
     "missing" lists the coordinate components whose column the record does not hold."""
-    out = {"tumor": SC.kv(rec.value("Tumor_Sample_Barcode")), "normal": SC.kv(rec.value("Matched_Norm_Sample_Barcode")), "missing": []}
-    for name, attr in (("chr", "chromosome"), ("start", "start"), ("stop", "end")):
+    def cell(column):
+        # straight from the columns the record holds (not through the record's convenience accessors: the oracle's view
+        # of the input must not depend on the code under test more than it has to)
         try:
-            out[name] = SC.kv(getattr(rec, attr))
-        except (KeyError, AttributeError, TypeError):
-            out[name] = None
+            c = rec[column]
+        except Exception:  # noqa
+            return None, False
+        return (None, False) if c is None else (c.value, True)
+    out = {"tumor": SC.kv(cell("Tumor_Sample_Barcode")[0]), "normal": SC.kv(cell("Matched_Norm_Sample_Barcode")[0]), "missing": []}
+    for name, column in (("chr", "Chromosome"), ("start", "Start_Position"), ("stop", "End_Position")):
+        v, held = cell(column)
+        out[name] = SC.kv(v) if held else None
+        if not held:
             out["missing"].append(name)
     out["hasCoords"] = not out["missing"]
     return out
